@@ -6,9 +6,9 @@ import Sebuf.DriverC01
 import Sebuf.DriverC09
 import Sebuf.DriverC10
 import Sebuf.DriverC13
+import Sebuf.DriverC05
 namespace Sebuf.DriverOps
-open Lean (Json)
-def dispatch (op : String) (j : Json) : Json :=
+def dispatch (op : String) (j : Lean.Json) : Lean.Json :=
   match op with
   | "route5" => Sebuf.Driver.opRoute5 j
   | "route_svc" => Sebuf.Driver.opRouteSvc j
@@ -20,6 +20,7 @@ def dispatch (op : String) (j : Json) : Json :=
   | "header_check" => Sebuf.Driver.opHeaderCheck j
   | "error_case" => Sebuf.Driver.opErrorCase j
   | "build_defects" => Sebuf.Driver.opBuildDefects j
+  | "spec_enc" => Sebuf.Driver.opSpecEnc j
   | "strfn" => Sebuf.Driver.opStrFn j
-  | _ => Json.mkObj [("driver_err", Json.str ("unknown op " ++ op))]
+  | _ => Lean.Json.mkObj [("driver_err", Lean.Json.str ("unknown op " ++ op))]
 end Sebuf.DriverOps
